@@ -61,3 +61,12 @@ pub fn apply_file_system_operations(
 ) -> LocationFreeDiagnosticResult<usize> {
     crate::write_artifacts::apply_file_system_operations(operations, artifacts)
 }
+
+/// Watch mode: `categorize_and_filter_events` (private in `watch.rs`), i.e. what the debouncer
+/// callback turns a batch of debounced `notify` events into before `update_sources` sees it.
+pub fn categorize_and_filter_events(
+    events: &[notify_debouncer_full::DebouncedEvent],
+    config: &isograph_config::CompilerConfig,
+) -> Option<Vec<crate::watch::SourceFileEvent>> {
+    crate::watch::verif_categorize_and_filter_events(events, config)
+}
